@@ -9,6 +9,7 @@ CONSTANTS
   EventShapes <- ES_big
   EvNames <- N2
   Listeners <- L5
+  SubmitKinds <- K2
   Loose = FALSE
   Dev <- NoDev
   AllowLose = FALSE
